@@ -26,7 +26,8 @@ import (
 // Oracle 4: what is emitted parses to the tree that was received, except
 //   - comparisons of a searchable / tokenized column of the configured table with a literal or a
 //     placeholder by =, !=, <>, <=> (either operand order): the search condition itself, whose new
-//     shape is C09's business;
+//     shape is C09's business; the value on the right may carry the `_binary` introducer, which only
+//     tells the type of the literal (client libraries put it before binary values);
 //   - `<literal> op <column>` with the symmetric operators =, != and <=>, which the filter is
 //     documented to turn into `<column> op <literal>`.
 type SRCase struct {
@@ -74,7 +75,42 @@ func isSearchCondition(a *cn) bool {
 		return false
 	}
 	val := func(c *cn) bool { return c.K == "Lit" || c.K == "Arg" }
-	return (col(l) && val(r)) || (val(l) && col(r))
+	// <column> = _binary <value>: the introducer is part of the value's spelling. The BINARY operator
+	// (a cast, `binary 'x'`) is an expression of its own: such a comparison is no search condition and,
+	// like every comparison with another operator, has to reach the database as it was written.
+	intro := func(c *cn) bool { return c.K == "Unary" && c.A == "_binary" && len(c.C) == 1 && val(c.C[0]) }
+	return (col(l) && (val(r) || intro(r))) || (val(l) && col(r))
+}
+
+// markedOperand: the canonical node is `binary <value>` / `_binary <value>`; returns the marker.
+func markedOperand(c *cn) (string, bool) {
+	if c != nil && c.K == "Unary" && (c.A == "binary" || c.A == "_binary") && len(c.C) == 1 && (c.C[0].K == "Lit" || c.C[0].K == "Arg") {
+		return c.A, true
+	}
+	return "", false
+}
+
+// firstDiffNode mirrors diffAllow and returns the innermost comparison of the received tree that holds the first
+// difference (nil when the difference is outside every comparison).
+func firstDiffNode(a, b *cn, allow func(a, b *cn) bool, encl *cn) (found bool, comparison *cn) {
+	if allow(a, b) {
+		return false, nil
+	}
+	if a.K == "Comparison" {
+		encl = a
+	}
+	if a.K != b.K || a.A != b.A {
+		return true, encl
+	}
+	for i := 0; i < len(a.C) && i < len(b.C); i++ {
+		if f, c := firstDiffNode(a.C[i], b.C[i], allow, encl); f {
+			return true, c
+		}
+	}
+	if len(a.C) != len(b.C) {
+		return true, encl
+	}
+	return false, nil
 }
 
 type srInfo struct {
@@ -82,6 +118,7 @@ type srInfo struct {
 	errored    bool
 	baitLeft   bool // the statement has `<literal> op <column>` with a non-symmetric operator
 	searchHits int
+	marked     map[string]bool // <marker>:<search|other>: comparisons whose right operand is `binary <value>` / `_binary <value>`
 }
 
 func countNodes(c *cn, f func(*cn) bool) int {
@@ -142,6 +179,23 @@ func CheckSearchRewrite(c SRCase) (vs hx.Vs, info srInfo) {
 	info.baitLeft = countNodes(c0, func(a *cn) bool {
 		return a.K == "Comparison" && len(a.C) >= 2 && !isEqOp(a.A) && (a.C[0].K == "Lit" || a.C[0].K == "Arg") && a.C[1].K == "ColName"
 	}) > 0
+
+	info.marked = map[string]bool{}
+	countNodes(c0, func(a *cn) bool {
+		if a.K == "Comparison" && len(a.C) >= 2 {
+			if m, ok := markedOperand(a.C[1]); ok && a.C[0].K == "ColName" {
+				kind := "other-comparison"
+				if isEqOp(a.A) {
+					kind = "equality"
+				}
+				if searchCols[bareName(a.C[0].A)] {
+					kind += "-on-search-column"
+				}
+				info.marked[m+":"+kind] = true
+			}
+		}
+		return false
+	})
 
 	ctx := decryptor.SetClientSessionToContext(fix.Ctx(w.Alice), &session{data: map[string]interface{}{}})
 	obj := encmysql.NewOnQueryObjectFromQuery(c.SQL, strict)
@@ -213,7 +267,19 @@ func CheckSearchRewrite(c SRCase) (vs hx.Vs, info srInfo) {
 		return false
 	}
 	if p, m, d := diffAllow(c0, c3, "", allow); d {
-		vs.Add("search-rewrite-alters:"+tail(p), "after %s the statement differs outside its search conditions: %s | original %q | emitted %q", c.Observer, m, c.SQL, emitted)
+		sig := "search-rewrite-alters:" + tail(p)
+		// a comparison whose right operand stood behind the BINARY operator / the _binary introducer and came back
+		// altered (marker lost, or the whole comparison treated as a search) is a class of its own
+		if f, cmp := firstDiffNode(c0, c3, allow, nil); f && cmp != nil && len(cmp.C) >= 2 {
+			if mk, ok := markedOperand(cmp.C[1]); ok {
+				if isEqOp(cmp.A) {
+					sig = "search-rewrite-alters:Comparison[equality " + mk + " value]"
+				} else {
+					sig = "search-rewrite-alters:Comparison[non-equality " + mk + " value]"
+				}
+			}
+		}
+		vs.Add(sig, "after %s the statement differs outside its search conditions: %s | original %q | emitted %q", c.Observer, m, c.SQL, emitted)
 	}
 	return vs, info
 }
@@ -223,7 +289,10 @@ var (
 	srEqOps      = []string{"=", "=", "!=", "<>", "<=>"}
 	srLits       = []string{"'abc'", "'it''s'", "X'4142'", "42", "?", "'%'", "''", "0x4142", "'Ünï'"}
 	srBaitCols   = []string{"plain", "age", "id", "s", "tok", "t_s.plain", "`age`", "note"}
-	srBaitOps    = []string{"<", ">", "<=", ">=", "like", "not like", "regexp", "not regexp", "=", "!=", "<=>", "<<", "+", "-", "div", "%"}
+	// srMarks: what stands before a value. `_binary` is the character set introducer client libraries put before
+	// binary values, `binary` the cast operator (Django: LIKE BINARY / REGEXP BINARY for case-sensitive lookups).
+	srMarks   = []string{"", "", "", "", "", "_binary ", "binary ", "BINARY ", "_binary"}
+	srBaitOps = []string{"<", ">", "<=", ">=", "like", "not like", "regexp", "not regexp", "=", "!=", "<=>", "<<", "+", "-", "div", "%"}
 )
 
 func genSRCase(t *rapid.T) SRCase {
@@ -231,13 +300,13 @@ func genSRCase(t *rapid.T) SRCase {
 	term := func() string {
 		switch rapid.IntRange(0, 9).Draw(t, "term") {
 		case 0, 1, 2, 3: // search condition
-			col, op, lit := rapid.SampledFrom(srSearchCols).Draw(t, "scol"), rapid.SampledFrom(srEqOps).Draw(t, "sop"), rapid.SampledFrom(srLits).Draw(t, "slit")
+			col, op, lit := rapid.SampledFrom(srSearchCols).Draw(t, "scol"), rapid.SampledFrom(srEqOps).Draw(t, "sop"), rapid.SampledFrom(srMarks).Draw(t, "smark")+rapid.SampledFrom(srLits).Draw(t, "slit")
 			if rapid.IntRange(0, 3).Draw(t, "sflip") == 0 {
 				return lit + " " + op + " " + col
 			}
 			return col + " " + op + " " + lit
 		case 4, 5, 6, 7: // another comparison / arithmetic with the literal on either side
-			col, op, lit := rapid.SampledFrom(srBaitCols).Draw(t, "bcol"), rapid.SampledFrom(srBaitOps).Draw(t, "bop"), rapid.SampledFrom(srLits).Draw(t, "blit")
+			col, op, lit := rapid.SampledFrom(srBaitCols).Draw(t, "bcol"), rapid.SampledFrom(srBaitOps).Draw(t, "bop"), rapid.SampledFrom(srMarks).Draw(t, "bmark")+rapid.SampledFrom(srLits).Draw(t, "blit")
 			if op == "<<" || op == "+" || op == "-" || op == "div" || op == "%" {
 				if rapid.Bool().Draw(t, "bflip") {
 					return "(" + lit + " " + op + " " + col + ") > 1"
@@ -289,7 +358,7 @@ func genSRCase(t *rapid.T) SRCase {
 }
 
 func TestSearchRewrite(t *testing.T) {
-	R.Rule("TestSearchRewrite", "MySQL SELECT / JOIN / UPDATE / DELETE / INSERT..SELECT statements over a schema with a searchable and a consistently tokenized column, whose WHERE / ON combine search conditions (column =,!=,<>,<=> literal|placeholder, either operand order), other comparisons and arithmetic with the literal on either side (<, >, <=, >=, like, regexp, ...) and generated expressions; run through MySQLTokenizeQuery and / or HashQuery as the proxy chains them; oracle 4: the emitted text parses to the received tree except at the search conditions (and the documented operand swap of symmetric comparisons); non-trivial = the statement was rewritten and holds a literal-left comparison with a non-symmetric operator or >= 2 search conditions")
+	R.Rule("TestSearchRewrite", "MySQL SELECT / JOIN / UPDATE / DELETE / INSERT..SELECT statements over a schema with a searchable and a consistently tokenized column, whose WHERE / ON combine search conditions (column =,!=,<>,<=> literal|placeholder, either operand order), other comparisons and arithmetic with the literal on either side (<, >, <=, >=, like, regexp, ...) and generated expressions; every literal / placeholder of a comparison may stand behind the _binary introducer or the BINARY cast operator (LIKE BINARY / REGEXP BINARY / = BINARY ..., on searchable, tokenized and plain columns); run through MySQLTokenizeQuery and / or HashQuery as the proxy chains them; oracle 4: the emitted text parses to the received tree except at the search conditions (column =,!=,<=> value, the value possibly behind _binary, which is part of its spelling) and the documented operand swap of symmetric comparisons - in particular BINARY <value> is an expression, never a search value, and _binary survives in every comparison that is not a search condition (such a comparison coming back altered is reported as search-rewrite-alters:Comparison[equality|non-equality binary|_binary value]); non-trivial = the statement was rewritten and holds a literal-left comparison with a non-symmetric operator, >= 2 search conditions or a marked right operand outside an equality search")
 	hx.Checks(2500, 20000)
 	rapid.Check(t, func(rt *rapid.T) {
 		c := genSRCase(rt)
@@ -307,7 +376,16 @@ func TestSearchRewrite(t *testing.T) {
 			cl = append(cl, "literal-left-nonsymmetric")
 		}
 		cl = append(cl, fmt.Sprintf("search-conditions:%d", min(info.searchHits, 3)))
-		R.Seen("TestSearchRewrite", c, info.changed && (info.baitLeft || info.searchHits >= 2), cl...)
+		markedOther := false
+		for m := range info.marked {
+			if info.changed {
+				cl = append(cl, "rewritten-with-right-operand-"+m)
+			}
+			if !strings.Contains(m, ":equality-on-search-column") {
+				markedOther = true
+			}
+		}
+		R.Seen("TestSearchRewrite", c, info.changed && (info.baitLeft || info.searchHits >= 2 || markedOther), cl...)
 		R.Report(rt, "TestSearchRewrite", c, vs)
 	})
 }
